@@ -38,6 +38,7 @@ NAMESETS = [
     [("9.001", "9"), ("10.001", "10"), ("2.001", "2")],      # natural vs string order
     [("2.001", "2"), ("2.002", "2B"), ("20.001", "20")],     # same prefix, labels
     [("2.001", "2"), ("20.001", None), ("3.001", None)],     # prefix of another name
+    [("7.001", "7"), ("7.002", "7"), ("7.003", "7")],        # three groups on one label
 ]
 NAMES = NAMESETS[1]
 KINDS = ["normal", "left", "right", "custom", "deletion"]
@@ -48,7 +49,8 @@ def BOUNDS(tier):
     return ["generated: base gene GA (pseudogene, +/- strands), K=" +
             ("3 (third allele restricted to normal/left fusion over two variants)"
              if tier == "thorough" else "2") + " symbolic alleles over a 3-variant "
-            "universe, 5 structural kinds, functional flags symbolic",
+            "universe, 5 structural kinds, functional flags symbolic; plus 3 normal alleles "
+            "sharing one shown name (all 8^3 variant subsets)",
             "corpus: all 38 shipped databases x {hg19, hg38}"]
 
 
@@ -57,8 +59,10 @@ def configs(tier):
     K = 3 if tier == "thorough" else 2
     # partition by the kind of the first allele (parallelism)
     for k0 in range(len(KINDS)):
-        for ns in range(len(NAMESETS)):
+        for ns in range(3):
             c.append({"kind": "gen", "K": K, "first": k0, "names": ns})
+    # three alleles that collide on one shown name (renaming :2, :3), normal structures
+    c.append({"kind": "gen", "K": 3, "first": 0, "names": 3, "normal_only": True})
     ship = [g for g in gengene.shipped_genes() if not g.startswith("pharma")]
     for i in range(4):
         c.append({"kind": "corpus", "genes": ship[i::4]})
@@ -239,7 +243,9 @@ def run_gen(cfg):
     base = [z3.And(m >= 0, m < 8) for m in masks] + [z3.And(k >= 0, k < len(KINDS))
                                                      for k in kinds]
     base.append(kinds[0] == cfg["first"])
-    if K > 2:
+    if cfg.get("normal_only"):
+        base += [k == 0 for k in kinds]
+    elif K > 2:
         # third allele: normal or left fusion, over the first two variants only
         base += [masks[2] < 4, kinds[2] <= 1]
     # at most one whole-gene deletion allele, listed last (a database property)
